@@ -305,6 +305,10 @@ def translate(repo, gen_dir):
     calls = [n for n in ast.walk(fn) if isinstance(n, ast.Call) and _src(n.func) == "numpy.concatenate"]
     if len(calls) != 1 or len(calls[0].args) != 1 or not isinstance(calls[0].args[0], ast.ListComp):
         _fail("%s: expected one numpy.concatenate([... for m in mats], ...)" % where)
+    b = _body(fn)
+    if not (len(b) == 3 and isinstance(b[0], ast.Assign) and _src(b[0].targets[0]) == "out" and isinstance(b[1], ast.Expr)
+            and isinstance(b[2], ast.Return) and _src(b[2].value) == "out"):
+        _fail("%s: expected `out = <inherited concat_taxa>; out._restandardize(...); return out`" % where)
     lc = calls[0].args[0]
     if len(lc.generators) != 1 or _src(lc.generators[0].target) != "m" or _src(lc.generators[0].iter) != "mats" or lc.generators[0].ifs:
         _fail("%s: the concatenated list does not range over every matrix of mats" % where)
